@@ -1079,7 +1079,7 @@ func (x *Exec) refineMethod(st *State, tag string, ins *ssa.MakeInterface, fn *s
 		}
 		for k := range x.patternKeys(p, tctxT) {
 			kT[k] = true
-			if !kI[k] && !allI && (strings.HasPrefix(k, "G%world%")) {
+			if !kI[k] && !allI && strings.HasPrefix(k, "G%world%") && !strings.HasPrefix(k, "G%world%uc") && !strings.HasPrefix(k, "G%world%rdN") {
 				extra = append(extra, k)
 			}
 		}
@@ -1110,6 +1110,11 @@ func (x *Exec) refineMethod(st *State, tag string, ins *ssa.MakeInterface, fn *s
 	bindResults(rI, res, types.NewSignatureType(nil, nil, nil, sig.Params(), unnamedResults(sig.Results()), sig.Variadic()), nil)
 	envI2 := &Env{x: x, st: st, names: rI, cur: st.H, old: old, tctx: tctxI, entryNames: nI, alloc: allocBefore}
 	for _, c := range specI.Ensures {
+		if strings.HasPrefix(c.Label, "rec") {
+			// observer clause: the interface contract records what the callee was called with and what it
+			// answered (ghost world.uc*), for the postconditions of thin wrappers; not a duty of implementations
+			continue
+		}
 		x.oblige(st, tag+":post:"+c.Label, "refinement", c.Src, x.evalBool(envI2, c.E))
 	}
 }
